@@ -71,7 +71,11 @@ vars == <<field, base, hist>>
 View == <<field, base>>
 
 Origins == {"parsed", "ctor", "builder"}      \* "padded": parsed from text with blanks around it
-Operands == { Plain(4), R(5, 1, 0, 0, 0), R(4, 2, 1, 1, 1), R(1, 3, 0, 0, 0), R(5, 0, 0, 0, 3) }   \* (the last but one: see right; the last: THREE profile groups, whose order counts)
+AllOperands == { Plain(4), R(5, 1, 0, 0, 0), R(4, 2, 1, 1, 1), R(1, 3, 0, 0, 0), R(5, 0, 0, 0, 3) }
+\* the operand with three profile groups takes part in the FIRST step from a base only (deeper histories with five
+\* operands exhausted TLC's heap in the thorough tier)
+Operands == IF Len(hist) = 0 THEN AllOperands ELSE AllOperands \ { R(5, 0, 0, 0, 3) }
+\* (was one set:)   \* (the last but one: see right; the last: THREE profile groups, whose order counts)
 \*    \* (the last: name 1 with version 3 = "1.0-0", EQUAL under Debian ordering to version 1 = "1.0" but another text)
 Op(op, i, j, x, g) == [op |-> op, i |-> i, j |-> j, x |-> x, g |-> g]      \* i entry idx, j relation idx (0-based), x operand(s), g origin
 
